@@ -55,7 +55,7 @@ func raceScenario(p raceParams) func() {
 				c.Node = node
 				c.Verdict = func(inv *world.QFInv) { inv.Level = len(inv.Keys); inv.Quorum = len(inv.Keys) >= 1 }
 				if cancel {
-					mc.GoNamed("cancel", func() { c.Cancel(context.Canceled) })
+					mc.GoLow("cancel", func() { c.Cancel(context.Canceled) })
 				}
 				w.Invoke(c)
 			}
@@ -184,7 +184,7 @@ func raceScenario(p raceParams) func() {
 			run("y", func() {
 				c := w3.NewCall("GRPCCall")
 				c.Node = 1
-				mc.GoNamed("cancel-y", func() { c.Cancel(context.Canceled) })
+				mc.GoLow("cancel-y", func() { c.Cancel(context.Canceled) })
 				w3.Invoke(c)
 			})
 			wg.Wait()
